@@ -6,7 +6,7 @@ import ast
 
 from ..cfg import handler_names
 from ..const import UNKNOWN, Folder
-from ..flow import Slicer, always_exits, parent_map
+from ..flow import Slicer, always_exits, flat_guards, parent_map
 from ..model import FuncInfo, Model, dotted, norm, walk_no_nested
 from ..report import Run
 from .common import CallGraph, ExcFlow, short
@@ -132,6 +132,61 @@ def _is_registry_dispatch(call: ast.Call, fi: FuncInfo) -> bool:
     return False
 
 
+def _identity_excluded(model: Model, fi: FuncInfo, call: ast.Call) -> set[str]:
+    """`K.m(...)` reached only when `K.m is Q.m` is false: Q.m is not a callee of this site."""
+    out: set[str] = set()
+    if not (isinstance(call.func, ast.Attribute) and isinstance(call.func.value, ast.Name)):
+        return out
+    recv, meth = call.func.value.id, call.func.attr
+    for test, pol in flat_guards(fi.node, call):
+        if not (isinstance(test, ast.Compare) and len(test.ops) == 1 and isinstance(test.ops[0], (ast.Is, ast.IsNot))):
+            continue
+        excluded = (isinstance(test.ops[0], ast.Is) and pol is False) or (isinstance(test.ops[0], ast.IsNot) and pol is True)
+        left, right = test.left, test.comparators[0]
+        if not excluded or not (isinstance(left, ast.Attribute) and isinstance(right, ast.Attribute)):
+            continue
+        if dotted(left) != '%s.%s' % (recv, meth) or right.attr != meth:
+            continue
+        for c in model.type_classes(fi.module, right.value) or []:
+            e = model.effective(c, meth)
+            if e is not None:
+                out.add(e.qualname)
+        d = dotted(right.value)
+        if d and not out:
+            for q in model.classes:
+                if q.endswith('.' + d) or q == d:
+                    e = model.effective(q, meth)
+                    if e is not None:
+                        out.add(e.qualname)
+    return out
+
+
+def _structural_descent(fi: FuncInfo, call: ast.Call) -> bool:
+    """The self-call's argument is an element of the function's own (container) parameter: `f(x) for x in param`,
+    `for k, v in param.items(): f(v)`.  The depth is then the nesting depth of the Python containers handed in, which
+    the decoder's own code - not the peer - builds."""
+    params = {a.arg for a in fi.node.args.args}
+    if len(call.args) != 1 or call.keywords or not isinstance(call.args[0], ast.Name):
+        return False
+    arg = call.args[0].id
+    par = parent_map(fi.node)
+    n: ast.AST | None = call
+    while n is not None and n is not fi.node:
+        gens = []
+        if isinstance(n, (ast.ListComp, ast.SetComp, ast.GeneratorExp, ast.DictComp)):
+            gens = [(g.target, g.iter) for g in n.generators]
+        elif isinstance(n, ast.For):
+            gens = [(n.target, n.iter)]
+        for tgt, it in gens:
+            if arg in {x.id for x in ast.walk(tgt) if isinstance(x, ast.Name)}:
+                base = it
+                if isinstance(base, ast.Call) and isinstance(base.func, ast.Attribute) and base.func.attr in ('items', 'values', 'keys') and not base.args:
+                    base = base.func.value
+                return isinstance(base, ast.Name) and base.id in params
+        n = par.get(id(n))
+    return False
+
+
 def check(model: Model, run: Run) -> None:
     cg = CallGraph(model)
     pred = decode_reachable(model, cg)
@@ -149,8 +204,28 @@ def check(model: Model, run: Run) -> None:
         'data (registry dispatch from a base-class front to registered subclasses is not recursion)',
         floor=3,
     )
-    for comp in _sccs(dec, cg.edges):
-        cyc = len(comp) > 1 or comp[0] in cg.edges.get(comp[0], ())
+    # a call `K.m(self)` that is only reached when `K.m is not Base.m` cannot land in Base.m
+    edges = {q: set(v) for q, v in cg.edges.items()}
+    dropped = []
+    for q in dec:
+        fi = model.funcs[q]
+        keep: set[str] = set()
+        cand: dict[str, int] = {}
+        for n in walk_no_nested(fi.node):
+            if isinstance(n, ast.Call):
+                ex = _identity_excluded(model, fi, n)
+                for t in model.callees_cha(fi.module, n):
+                    if t in ex:
+                        cand[t] = cand.get(t, 0) + 1
+                    else:
+                        keep.add(t)
+        for t in cand:
+            if t not in keep and t in edges.get(q, ()):
+                edges[q].discard(t)
+                dropped.append('%s -/-> %s' % (short(q), short(t)))
+    run.extra['identity_guarded_edges_dropped'] = dropped
+    for comp in _sccs(dec, edges):
+        cyc = len(comp) > 1 or comp[0] in edges.get(comp[0], ())
         if not cyc:
             continue
         comp = sorted(comp)
@@ -168,6 +243,10 @@ def check(model: Model, run: Run) -> None:
             real = [s for s in sites if not _is_registry_dispatch(s, fi)]
             if not real:
                 run.ok(name, 'registry dispatch to registered subclasses (%d sites)' % len(sites))
+                continue
+            if all(_structural_descent(fi, s) for s in real):
+                run.ok(name, 'structural descent into the containers of its own argument (%d sites): depth = nesting of the value the decoder built' % len(real))
+                run.assumptions.append('%s: the containers handed to it are built by non-recursive decoder code (covered by this rule), so their nesting depth is fixed by the source' % short(q))
                 continue
             if q in RECURSION_ALLOWED:
                 run.ok(name, 'allowed: ' + RECURSION_ALLOWED[q])
